@@ -1,7 +1,11 @@
 import TbbVerif.Core.Proto
+import TbbVerif.Model.C06
 
 open TbbVerif
 
-def drivers : List (String × Proto.Driver) := []
+def drivers : List (String × Proto.Driver) := [
+  ("c06", C06.Drv.driver),
+  ("c06rd", C06.Drv.RD.driver)
+]
 
 def main (args : List String) : IO UInt32 := Proto.mainOf drivers args
